@@ -304,5 +304,9 @@ func runC16(r *Run) {
 		for i := 0; i < r.Pick(12, 120); i++ {
 			expiredThenRewritten(r, i, "C16")
 		}
+		// Len and Range against what is resident after LoadCache into a cache in use (c02.go)
+		for i := 0; i < r.Pick(12, 120); i++ {
+			bulkLoad(r, i, "C16")
+		}
 	}
 }
